@@ -186,11 +186,17 @@ type vc08Store struct {
 	rolledBack chan struct{} // closed when a held call's transaction has been rolled back (write lock released)
 	release    chan struct{} // closed to let the held OnRollback functions run
 	otherDone  chan struct{} // closed when the racing call has returned
+	// run once, right before the next write transaction that is not an Add of the harness (the repair's checkPage)
+	beforeRepairWrite func()
 }
 
 func (v *vc08Store) Write(ctx context.Context, fn func(stoabs.WriteTx) error, opts ...stoabs.TxOption) error {
 	call, _ := ctx.Value(vc08CallKey{}).(*vc08Call)
 	if call == nil {
+		if hook := v.beforeRepairWrite; hook != nil {
+			v.beforeRepairWrite = nil
+			hook()
+		}
 		return v.KVStore.Write(ctx, fn, opts...)
 	}
 	if call.hold {
@@ -739,7 +745,7 @@ func (r *vc08Run) register(ops []*vc08Op, from int) {
 		}
 	}
 	for i := from + 1; i < len(ops) && ops[i].Op != "new"; i++ {
-		if ops[i].Op == "add" {
+		if ops[i].Op == "add" || ops[i].Op == "checkRace" {
 			reg(ops[i])
 		}
 		for _, a := range ops[i].adds {
@@ -753,7 +759,26 @@ func (r *vc08Run) run(ops []*vc08Op) {
 		if op.Op == "new" {
 			r.register(ops, i)
 		}
-		r.exec(op)
+		// watchdog: an operation of the real code that does not terminate (e.g. the tree's growth loop on a tree
+		// loaded from a damaged shelf) is reported as an outcome instead of hanging the whole run
+		done := make(chan struct{})
+		go func() {
+			defer close(done)
+			r.exec(op)
+		}()
+		select {
+		case <-done:
+		case <-time.After(40 * time.Second):
+			op.Xs, op.Is, op.Ws = []uint32{}, []uint32{}, []uint32{}
+			op.Quiet = true
+			r.emit(op, "hang:"+op.Op, "FAIL:operation-did-not-terminate:"+op.Op+" did not return within 40s")
+			r.ops.Flush()
+			r.impl.Flush()
+			r.orc.Flush()
+			sb, _ := json.Marshal(r.stats)
+			os.WriteFile(filepath.Join(filepath.Dir(r.dir), "stats.json"), sb, 0o644)
+			os.Exit(0)
+		}
 	}
 }
 
@@ -919,6 +944,18 @@ func (r *vc08Run) exec(op *vc08Op) {
 			r.st.IncorrectStateDetected()
 		case "signalOK":
 			r.st.CorrectStateDetected()
+		case "checkRace":
+			// an Add that commits after checkPage has started (and read the atomic clock) but before its write transaction
+			res, fired := "", false
+			r.db.beforeRepairWrite = func() { fired = true; res = r.doAdd(op, 0) }
+			r.st.xorTreeRepair.checkPage()
+			r.db.beforeRepairWrite = nil
+			if !fired { // circuit not red: checkPage returned at once
+				res = r.doAdd(op, 0)
+			}
+			r.fillTx(op)
+			r.stats["add:"+res]++
+			tag = fmt.Sprintf("checkRace %s page=%d", res, r.st.xorTreeRepair.currentPage)
 		case "check":
 			r.st.xorTreeRepair.checkPage()
 			tag = fmt.Sprintf("check page=%d", r.st.xorTreeRepair.currentPage)
@@ -1029,8 +1066,23 @@ func (g *vc08Gen) payloadMode() string {
 
 func (g *vc08Gen) repairCycle(pages int) {
 	g.ops = append(g.ops, &vc08Op{Op: "signal", Sus: true}, &vc08Op{Op: "signal", Sus: true})
+	raceAt := -1
+	if g.rng.Intn(3) == 0 {
+		raceAt = g.rng.Intn(2*pages + 1)
+	}
 	for k := 0; k < 2*pages+1; k++ {
+		if k == raceAt { // an Add slips in between the start of this check and its write transaction
+			op := g.valid(1 + g.rng.Intn(2))
+			op.Op = "checkRace"
+			op.Sus, op.fullObs = k < 2*pages, true
+			g.ops = append(g.ops, op)
+			g.commit(op)
+			continue
+		}
 		g.ops = append(g.ops, &vc08Op{Op: "check", Sus: k < 2*pages, fullObs: k == 2*pages})
+	}
+	if g.rng.Intn(2) == 0 { // is the repaired page what a restart reads back?
+		g.ops = append(g.ops, &vc08Op{Op: "restart", fullObs: true}, &vc08Op{Op: "signal"}, &vc08Op{Op: "signal"})
 	}
 	if g.rng.Intn(2) == 0 {
 		g.ops = append(g.ops, &vc08Op{Op: "signalOK"}, &vc08Op{Op: "check"})
@@ -1228,6 +1280,23 @@ func (g *vc08Gen) history(label string, n, width int) {
 				if !dup {
 					g.commit(a)
 				}
+			}
+		case rare(3): // the repair loop is active on a healthy DAG and Adds slip in before its write transactions
+			if len(g.added) == 0 {
+				continue
+			}
+			g.ops = append(g.ops, &vc08Op{Op: "signal"}, &vc08Op{Op: "signal"})
+			for k := 1 + g.rng.Intn(3); k > 0; k-- {
+				op := g.valid(width)
+				op.Op = "checkRace"
+				op.Payload = g.payloadMode()
+				op.fullObs = true
+				g.ops = append(g.ops, op)
+				g.commit(op)
+			}
+			g.ops = append(g.ops, &vc08Op{Op: "signalOK"})
+			if g.rng.Intn(3) == 0 {
+				g.ops = append(g.ops, &vc08Op{Op: "restart", fullObs: true})
 			}
 		case rare(1):
 			if g.rng.Intn(2) == 0 { // one signal only: the circuit is yellow
